@@ -19,7 +19,7 @@ NPROC = int(os.environ.get('H2VERIF_NPROC', '16'))
 class Result:
     """What one executed case reports."""
     __slots__ = ('violations', 'labels', 'nontrivial', 'trace', 'excluded',
-                 'known')
+                 'known', 'evals')
 
     def __init__(self):
         self.violations = []     # [(key, detail)]
@@ -28,6 +28,7 @@ class Result:
         self.trace = []          # JSON-able concrete steps
         self.excluded = collections.Counter()
         self.known = collections.Counter()
+        self.evals = 1           # executions against the implementation in this case
 
     def violate(self, key, detail=''):
         self.violations.append((key, detail))
@@ -93,14 +94,15 @@ def _shard(args):
             prop.configure(known_for(prop_id, 'known'))
         known = known_for(prop_id, 'known')
         acc = {
-            'evaluations': 0, 'nontrivial': set(), 'labels': collections.Counter(),
+            'evaluations': 0, 'cases': 0, 'nontrivial': set(), 'labels': collections.Counter(),
             'samples': [], 'violations': {}, 'excluded': collections.Counter(),
             'known_hits': collections.Counter(), 'error': None,
         }
 
         def one(data):
             r = prop.run_case(data)
-            acc['evaluations'] += 1
+            acc['evaluations'] += r.evals
+            acc['cases'] += 1
             for lab in r.labels:
                 acc['labels'][lab] += 1
             acc['excluded'].update(r.excluded)
@@ -150,7 +152,7 @@ def _grid_chunk(args):
                'known_hits': collections.Counter(), 'error': None}
         for it in items:
             r = prop.run_grid_item(it)
-            out['evaluations'] += 1
+            out['evaluations'] += r.evals
             for lab in r.labels:
                 out['labels'][lab] += 1
             out['known_hits'].update(r.known)
@@ -344,6 +346,7 @@ def main(argv=None):
 
     # 2. enumerated part
     total_eval = 0
+    total_cases = 0
     nontrivial = set()
     labels = collections.Counter()
     samples = []
@@ -389,6 +392,7 @@ def main(argv=None):
                     print('HARNESS-ERROR: worker crashed')
                     return 2
                 total_eval += out['evaluations']
+                total_cases += out['cases']
                 nontrivial |= out['nontrivial']
                 labels.update(out['labels'])
                 excluded.update(out['excluded'])
@@ -437,7 +441,7 @@ def main(argv=None):
             'excluded_by_construction': dict(excluded),
             'known_finding_hits_in_exploration': dict(known_hits),
             'known_findings': findings_state,
-            'generated_cases': cfg.get('cases', 0),
+            'generated_cases': total_cases,
             'case_bytes': cfg.get('size', 0),
             'shards': NPROC,
             'violation_keys': [v[0] for v in violations],
